@@ -1,0 +1,14 @@
+//go:build verif
+
+package tl
+
+// VerifRandomHook lets the external verification harness (/verif) supply the bytes of the next random
+// 128/256-bit value (to steer a key exchange into numeric corner cases); nil or a nil result = draw normally.
+var VerifRandomHook func(size int) []byte
+
+func verifRandom(size int) []byte {
+	if VerifRandomHook != nil {
+		return VerifRandomHook(size)
+	}
+	return nil
+}
